@@ -18,6 +18,7 @@ use metrics_util::{MetricKind, MetricKindMask};
 use quanta::Clock;
 use std::collections::BTreeMap;
 use std::sync::atomic::Ordering;
+use std::sync::Arc;
 use std::time::Duration;
 
 static META: metrics::Metadata<'static> = metrics::Metadata::new("mv", metrics::Level::INFO, None);
@@ -783,5 +784,182 @@ pub fn run(cfg: &Cfg, out: &mut Out) {
             let buckets = r.chance(1, 2);
             run_prom_case(out, &c, buckets);
         }
+    }
+}
+
+
+// ---------------------------------------------------------------------------------------------
+// concurrent stream: updates racing a render, under the deterministic scheduler.
+//
+// A real `PrometheusRecorder` (mock clock, idle timeout 10 ticks on all kinds) holds one counter or gauge.
+// Phase 1: register, render (Recency now has an entry).  Phase 2, scheduled one grant at a time through the yield
+// points `gen.applied` (between the closure and the generation bump in `Generational::with_increment`) and
+// `prom.render.gen_read` (between the exporter's generation read and its value read): updater threads increment,
+// an observer thread renders.  Phase 3: the clock jumps past the timeout, render; phase 4: again.
+// The same grants are replayed on the Lean step machine (`genrace prom …`): values shown and kept/dropped must agree.
+// Oracle from the property's wording: a metric may only be dropped when its last shown value is its true value
+// (otherwise an update made since the previous observation was discarded), a kept metric shows its true value, and
+// an idle metric is gone one timeout later.
+fn conc_execute(kind: usize, upds: &[usize], renders: usize, schedule: &[usize]) -> (crate::sched::RunResult, Vec<Option<u64>>, Option<u64>, Option<u64>, Option<u64>) {
+    use std::sync::Mutex;
+    let (clock, mock) = Clock::mock();
+    let rec = Arc::new(PrometheusBuilder::new().idle_timeout(mask_of(7), Some(Duration::from_nanos(10))).verif_build_with_clock(clock));
+    let handle = rec.handle();
+    let name = if kind == 0 { "cg_c" } else { "cg_g" };
+    let key = Key::from_name(name);
+    let shown = |text: &str| -> Option<u64> {
+        let fams = expo::check_exposition(text).ok()?;
+        let f = fams.iter().find(|f| f.name == name)?;
+        f.samples.first().and_then(|x| x.2.parse::<f64>().ok()).map(|v| v as u64)
+    };
+    enum H {
+        C(metrics::Counter),
+        G(metrics::Gauge),
+    }
+    let mk = || if kind == 0 { H::C(rec.register_counter(&key, &META)) } else { H::G(rec.register_gauge(&key, &META)) };
+    let _keep = mk();
+    let first = shown(&handle.render());
+    let mut bodies: Vec<Box<dyn FnOnce() + Send + 'static>> = vec![];
+    for k in upds {
+        let h = mk();
+        let k = *k;
+        bodies.push(Box::new(move || {
+            for _ in 0..k {
+                match &h {
+                    H::C(c) => c.increment(1),
+                    H::G(g) => g.increment(1.0),
+                }
+            }
+        }));
+    }
+    let values: Arc<Mutex<Vec<Option<u64>>>> = Arc::new(Mutex::new(vec![]));
+    {
+        let handle = handle.clone();
+        let values = values.clone();
+        bodies.push(Box::new(move || {
+            for _ in 0..renders {
+                let text = handle.render();
+                let fams = expo::check_exposition(&text).ok();
+                let v = fams.and_then(|fams| {
+                    fams.iter().find(|f| f.name == name).and_then(|f| f.samples.first().and_then(|x| x.2.parse::<f64>().ok()).map(|v| v as u64))
+                });
+                values.lock().unwrap().push(v);
+            }
+        }));
+    }
+    let run = crate::sched::run(bodies, schedule);
+    mock.increment(11);
+    let r3 = shown(&handle.render());
+    mock.increment(11);
+    let r4 = shown(&handle.render());
+    let vals = values.lock().unwrap().clone();
+    (run, vals, first, r3, r4)
+}
+
+fn conc_one(out: &mut Out, kind: usize, upds: &[usize], renders: usize, schedule: &[usize]) -> crate::sched::RunResult {
+    let (run, vals, first, r3, r4) = conc_execute(kind, upds, renders, schedule);
+    let total: u64 = upds.iter().map(|k| *k as u64).sum();
+    let labels: Vec<&str> = run.trace.iter().map(|(_, id)| *id).collect();
+    let taken: Vec<usize> = run.trace.iter().map(|(t, _)| *t).collect();
+    let fmt_vals = |v: &Vec<Option<u64>>| if v.is_empty() { ".".to_string() } else { v.iter().map(|x| x.map(|x| x.to_string()).unwrap_or("~".into())).collect::<Vec<_>>().join(",") };
+    out.op(
+        &format!("genrace prom {} {} {}", list(upds.iter().map(|k| k.to_string())), renders, crate::sched::sched_tok(&taken)),
+        &format!("{} | {} | final={} kept={}", labels.join("."), fmt_vals(&vals), total, if r3.is_some() { 1 } else { 0 }),
+    );
+    out.count(&format!("concurrent.kind={}", if kind == 0 { "counter" } else { "gauge" }));
+    if run.deadlock || run.timed_out || !run.panicked.is_empty() {
+        out.oracle_fail("updates racing render: deadlock, timeout or panic", &format!("{:?}", run.trace));
+        return run;
+    }
+    // an observation landed between the two halves of an update
+    let mut mid = vec![false; upds.len()];
+    for (t, id) in &run.trace {
+        if *t < upds.len() {
+            mid[*t] = *id == "start" || *id == "gen.applied";
+            // (after a grant at `start` the thread is parked between the halves; after the last `gen.applied` it is done)
+        } else if *id == "prom.render.gen_read" || *id == "start" {
+            if mid.iter().any(|m| *m) {
+                out.nontrivial();
+            }
+        }
+    }
+    let ctx = || format!(
+        "kind={} updates per thread {:?}, {} render(s) while they run; grants {:?}; render before = {:?}, renders during = {:?}, render after timeout = {:?}, one more timeout later = {:?}; true final value {}",
+        if kind == 0 { "counter" } else { "gauge" }, upds, renders, run.trace, first, vals, r3, r4, total
+    );
+    if first != Some(0) {
+        out.oracle_fail("a registered metric is not shown by the first render", &ctx());
+    }
+    let last_shown = vals.iter().rev().flatten().next().copied().or(first);
+    match r3 {
+        None => {
+            if last_shown != Some(total) {
+                out.oracle_fail("a metric updated since the previous observation was dropped as idle: its last shown value is not its true value", &ctx());
+            }
+        }
+        Some(v) => {
+            if v != total {
+                out.oracle_fail("a kept metric does not show its full value", &ctx());
+            }
+        }
+    }
+    if vals.iter().any(|v| v.is_none()) {
+        out.oracle_fail("a metric idle for no longer than the timeout is missing from a render", &ctx());
+    }
+    if r4.is_some() {
+        out.oracle_fail("a metric unchanged since an observation made more than the timeout ago is still shown", &ctx());
+    }
+    run
+}
+
+pub fn run_concurrent(cfg: &Cfg, out: &mut Out) {
+    let mut configs: Vec<(usize, Vec<usize>, usize)> = vec![];
+    for kind in [0usize, 1] {
+        configs.push((kind, vec![1], 1));
+        configs.push((kind, vec![2], 1));
+        configs.push((kind, vec![1, 1], 1));
+        configs.push((kind, vec![1], 2));
+    }
+    if cfg.thorough {
+        for kind in [0usize, 1] {
+            configs.push((kind, vec![2], 2));
+            configs.push((kind, vec![2, 1], 2));
+            configs.push((kind, vec![1, 1, 1], 1));
+            configs.push((kind, vec![3], 3));
+        }
+    }
+    for (kind, upds, renders) in configs {
+        let mut prefix: Vec<usize> = vec![];
+        let mut runs = 0usize;
+        loop {
+            out.case(&format!("concurrent exhaustive kind={} upds={:?} renders={} run={}", kind, upds, renders, runs));
+            let run = conc_one(out, kind, &upds, renders, &prefix);
+            runs += 1;
+            if runs >= 3000 {
+                out.count("concurrent.enumeration capped");
+                break;
+            }
+            let taken: Vec<usize> = run.trace.iter().map(|(t, _)| *t).collect();
+            let mut i = taken.len();
+            let mut next = None;
+            while i > 0 {
+                i -= 1;
+                if let Some(alt) = run.choices[i].iter().copied().filter(|c| *c > taken[i]).min() {
+                    next = Some((i, alt));
+                    break;
+                }
+            }
+            match next {
+                None => {
+                    out.count("concurrent.enumeration exhausted");
+                    break;
+                }
+                Some((i, alt)) => {
+                    prefix = taken[..i].to_vec();
+                    prefix.push(alt);
+                }
+            }
+        }
+        out.count(&format!("concurrent.schedules={}", runs));
     }
 }
